@@ -32,6 +32,7 @@ type Stats struct {
 	Time     time.Duration
 	LastErr  string
 	MaxQuery time.Duration
+	Fallbacks int
 }
 
 func (a *Stats) AddStats(b Stats) {
@@ -40,6 +41,7 @@ func (a *Stats) AddStats(b Stats) {
 	a.Unsat += b.Unsat
 	a.Unknown += b.Unknown
 	a.Errors += b.Errors
+	a.Fallbacks += b.Fallbacks
 	a.Time += b.Time
 	if b.LastErr != "" {
 		a.LastErr = b.LastErr
@@ -57,6 +59,10 @@ type Solver struct {
 	out    *bufio.Reader
 	inRaw  io.WriteCloser
 	levels [][]string // variables declared per push level
+	text   [][]string // commands sent per push level (for the fallback solver)
+	fbModel map[string]*big.Int
+	Fallback string // "" or "cvc5": one-shot second solver tried when the primary answers unknown
+	FallbackUsed int
 	decl   map[string]Sort
 	Stats  Stats
 	Log    io.Writer // optional transcript
@@ -87,7 +93,7 @@ func NewSolver(kind string, timeoutMs int) (*Solver, error) {
 		return nil, err
 	}
 	s := &Solver{Kind: kind, cmd: cmd, in: bufio.NewWriterSize(inw, 1<<16), out: bufio.NewReaderSize(outr, 1<<16),
-		inRaw: inw, levels: [][]string{nil}, decl: map[string]Sort{}}
+		inRaw: inw, levels: [][]string{nil}, text: [][]string{nil}, decl: map[string]Sort{}}
 	if kind == "cvc5" {
 		s.send("(set-logic ALL)")
 	}
@@ -125,6 +131,7 @@ func (s *Solver) Level() int { return len(s.levels) - 1 }
 func (s *Solver) Push() {
 	s.send("(push 1)")
 	s.levels = append(s.levels, nil)
+	s.text = append(s.text, nil)
 }
 
 func (s *Solver) Pop() {
@@ -137,6 +144,7 @@ func (s *Solver) Pop() {
 		delete(s.decl, n)
 	}
 	s.levels = s.levels[:len(s.levels)-1]
+	s.text = s.text[:len(s.text)-1]
 }
 
 // PopTo pops until the given level.
@@ -165,6 +173,7 @@ func (s *Solver) declare(t *Term) {
 			so = "Bool"
 		}
 		s.send(fmt.Sprintf("(declare-const %s %s)", n, so))
+		s.text[len(s.text)-1] = append(s.text[len(s.text)-1], fmt.Sprintf("(declare-const %s %s)", n, so))
 		s.decl[n] = vars[n]
 		s.levels[len(s.levels)-1] = append(s.levels[len(s.levels)-1], n)
 	}
@@ -176,6 +185,7 @@ func (s *Solver) Assert(t *Term) {
 	}
 	s.declare(t)
 	s.send("(assert " + t.String() + ")")
+	s.text[len(s.text)-1] = append(s.text[len(s.text)-1], "(assert "+t.String()+")")
 }
 
 // Check runs (check-sat) on the current assertion stack.
@@ -226,6 +236,10 @@ func (s *Solver) Check() Result {
 		s.Stats.Errors++
 		res = Unknown
 	}
+	s.fbModel = nil
+	if res == Unknown && s.Fallback != "" {
+		res = s.fallbackCheck()
+	}
 	d := time.Since(t0)
 	if s.Log != nil {
 		fmt.Fprintf(s.Log, "; time %s\n", d)
@@ -261,8 +275,74 @@ func (s *Solver) CheckWith(t *Term, keepOnSat bool) Result {
 	return r
 }
 
+// fallbackCheck re-decides the current stack with a one-shot second solver.
+func (s *Solver) fallbackCheck() Result {
+	var sb strings.Builder
+	sb.WriteString("(set-logic ALL)\n(set-option :produce-models true)\n")
+	for _, lvl := range s.text {
+		for _, l := range lvl {
+			sb.WriteString(l)
+			sb.WriteByte('\n')
+		}
+	}
+	sb.WriteString("(check-sat)\n")
+	names := make([]string, 0, len(s.decl))
+	for n := range s.decl {
+		names = append(names, n)
+	}
+	sort.Strings(names)
+	if len(names) > 0 {
+		sb.WriteString("(get-value (" + strings.Join(names, " ") + "))\n")
+	}
+	cmd := exec.Command(s.Fallback, "--lang=smt2", "--tlimit=30000")
+	cmd.Stdin = strings.NewReader(sb.String())
+	out, _ := cmd.CombinedOutput()
+	s.FallbackUsed++
+	s.Stats.Fallbacks++
+	txt := string(out)
+	first := strings.TrimSpace(txt)
+	if i := strings.IndexByte(first, '\n'); i >= 0 {
+		first = first[:i]
+	}
+	switch strings.TrimSpace(first) {
+	case "unsat":
+		if strings.Contains(txt, "(error") && !strings.Contains(txt, "cannot get value") && !strings.Contains(txt, "Cannot get") {
+			return Unknown
+		}
+		return Unsat
+	case "sat":
+		rest := txt[strings.Index(txt, "sat")+3:]
+		if strings.Contains(rest, "(error") {
+			return Unknown
+		}
+		toks := tokenize(rest)
+		m := map[string]*big.Int{}
+		pos := 0
+		if len(toks) > 0 && toks[0] == "(" {
+			pos = 1
+			for pos < len(toks) && toks[pos] == "(" {
+				pos++
+				name := toks[pos]
+				pos++
+				v, err := parseValue(toks, &pos)
+				if err != nil || pos >= len(toks) || toks[pos] != ")" {
+					return Unknown
+				}
+				pos++
+				m[name] = v
+			}
+		}
+		s.fbModel = m
+		return Sat
+	}
+	return Unknown
+}
+
 // Model returns values for every declared variable. Call directly after a Sat.
 func (s *Solver) Model() (map[string]*big.Int, error) {
+	if s.fbModel != nil {
+		return s.fbModel, nil
+	}
 	names := make([]string, 0, len(s.decl))
 	for n := range s.decl {
 		names = append(names, n)
